@@ -276,6 +276,66 @@ fn scale_threshold_f64(d: &mut Draw) -> Outcome {
     pass(cls, true)
 }
 
+
+/// f64: a matrix with a tiny but non-zero determinant is still inverted, and the matrix of a
+/// Decomposed transform inverts to the matrix of its inverse
+fn matrix_small_det_f64(d: &mut Draw) -> Outcome {
+    let sign = if d.bool() { 1.0 } else { -1.0 };
+    let (scale, cls): (f64, &'static str) = match d.int(0, 4) {
+        0 => (sign * d.f64_log(1e-50, 1e-6), "minute"),
+        1 => (sign * d.f64_log(1e-6, 1e-3), "small"),
+        2 => (sign * 1e-6 * (1.0 + d.f64_log(1e-9, 1.0)), "just-above-1e-6"),
+        _ => (sign * d.f64_log(1e-3, 50.0), "ordinary"),
+    };
+    let u = f_unit_quat(d);
+    let disp = Vector3::from(f_vec3(d, -10.0, 10.0));
+    let p = Point3::from(f_vec3(d, -10.0, 10.0));
+    let v = Vector3::from(f_vec3(d, -10.0, 10.0));
+    d.note("scale", &scale);
+    d.note("rot", &u);
+    d.note("disp,p,v", &(disp, p, v));
+    let e = f64::EPSILON;
+    let dec = Decomposed { scale, rot: mk_q(&u), disp };
+    let m4 = Matrix4::from(dec);
+    let m3 = Matrix3::from(mk_q(&u)) * scale;
+    // the determinants are s^3 (times 1 for the homogeneous row): non-zero, far from underflow
+    ensure!(m4.determinant() != 0.0 && m3.determinant() != 0.0, "harness-det-underflow", "constructed determinant underflowed: {:e}", m4.determinant());
+    let i4 = Transform::<Point3<f64>>::inverse_transform(&m4);
+    ensure!(i4.is_some(), "matrix4-refuses-to-invert", "Matrix4 with determinant {:e} != 0 must invert (scale {:e})", m4.determinant(), scale);
+    ensure!(Transform::<Point3<f64>>::inverse_transform_vector(&m4, v).is_some(), "matrix4-refuses-to-invert-vector", "Matrix4::inverse_transform_vector is None for determinant {:e}", m4.determinant());
+    let i3 = Transform::<Point3<f64>>::inverse_transform(&m3);
+    ensure!(i3.is_some(), "matrix3-refuses-to-invert", "Matrix3 with determinant {:e} != 0 must invert", m3.determinant());
+    ensure!(m4.invert().is_some() && m3.invert().is_some(), "invert-refuses", "invert() is None for a non-zero determinant");
+    let i4 = i4.unwrap();
+    let back = Transform::<Point3<f64>>::transform_point(&i4, Transform::<Point3<f64>>::transform_point(&m4, p));
+    let tolp = 1024.0 * e * (p.to_vec().magnitude() + disp.magnitude() / scale.abs() + 1e-300);
+    ensure!((back - p).magnitude() <= tolp, "matrix4-inverse-undoes-point", "Matrix4: inv(T(p)) misses p by {:e} (tolerance {:e}, scale {:e})", (back - p).magnitude(), tolp, scale);
+    let backv = i3.unwrap() * (m3 * v);
+    ensure!((backv - v).magnitude() <= 1024.0 * e * v.magnitude(), "matrix3-inverse-undoes-vector", "Matrix3: inv(T(v)) misses v by {:e}", (backv - v).magnitude());
+    // converting to a matrix commutes with inverting (where the Decomposed inverse must exist)
+    if scale.abs() > 1e-6 {
+        let di = match dec.inverse_transform() {
+            Some(x) => x,
+            None => return Outcome::Fail { sig: "refuses-to-invert", msg: format!("Decomposed with |scale| = {:e} > 1e-6 must invert", scale.abs()) },
+        };
+        let md = Matrix4::from(di).rm();
+        let mi = i4.rm();
+        let big = (0..4).flat_map(|c| (0..4).map(move |r| (c, r))).fold(0.0f64, |a, (c, r)| a.max(md.e[c][r].abs()));
+        let diff = md.max_abs_diff(&mi);
+        ensure!(diff <= 1e-9 * big, "matrix-inverts-f64", "M(D^-1) and M(D)^-1 differ by {:e} (largest entry {:e})", diff, big);
+    }
+    // 2-D
+    let th = d.f64_in(-3.0, 3.0);
+    let d2: DB2<f64> = Decomposed { scale, rot: Rotation2::from_angle(Rad(th)), disp: Vector2::new(disp.x, disp.y) };
+    let m2d = Matrix3::from(d2);
+    let i2 = Transform::<Point2<f64>>::inverse_transform(&m2d);
+    ensure!(i2.is_some(), "matrix3-2d-refuses-to-invert", "Matrix3 (2-D) with determinant {:e} != 0 must invert", m2d.determinant());
+    let p2 = Point2::new(p.x, p.y);
+    let back = Transform::<Point2<f64>>::transform_point(&i2.unwrap(), Transform::<Point2<f64>>::transform_point(&m2d, p2));
+    ensure!((back - p2).magnitude() <= tolp, "matrix3-2d-inverse-undoes-point", "Matrix3 (2-D): inv(T(p)) misses p by {:e}", (back - p2).magnitude());
+    pass(cls, true)
+}
+
 pub fn property() -> Property {
     let mut s = Vec::new();
     macro_rules! add {
@@ -296,6 +356,8 @@ pub fn property() -> Property {
     add!("matrix3-Fp", "Fp", m3_exact::<Fp>, 3000, 200_000, 192, &[("generic", 100), ("singular", 50)], "linear parts with all entries non-zero");
     add!("scale_threshold-f64", "f64", scale_threshold_f64, 10000, 500_000, 64,
         &[("zero", 100), ("negligible", 100), ("just-above", 50), ("small", 50), ("ordinary", 200)], "every generated transform; scale classes zero / negligible / just above 1e-6 / small / ordinary required");
+    add!("matrix_small_determinant-f64", "f64", matrix_small_det_f64, 8000, 400_000, 64,
+        &[("minute", 100), ("small", 100), ("just-above-1e-6", 100), ("ordinary", 200)], "every generated transform; determinant classes minute / small / just above the Decomposed threshold / ordinary required");
     Property {
         id: "C08",
         title: "Transforms compose, invert and convert to matrices consistently",
